@@ -1,14 +1,16 @@
 package main
 
 // C13 / C14 — selector histories against Select/Selectors.v + Select/Hist.v, with direct monitors
-// (membership, error iff empty, strict rotation, weight-proportional cycle, determinism, history
-// independence, minimal disruption).
+// (membership, error iff none eligible, strict rotation, weight-proportional cycle, determinism, mod-hash
+// slot, consistent-hash reference lookup).  Every case runs in a child process (c13child.go): a crash,
+// a fatal out-of-memory or a hang is attributed to the case that was running.
 
 import (
 	"fmt"
 	"math/rand"
 	"sort"
 	"strings"
+	"sync"
 
 	"github.com/TarsCloud/TarsGo/tars/selector"
 	"github.com/TarsCloud/TarsGo/tars/selector/consistenthash"
@@ -18,48 +20,57 @@ import (
 	"github.com/TarsCloud/TarsGo/tars/util/endpoint"
 )
 
-type hmsg struct{ code uint32 }
+type c13Msg struct{ code uint32 }
 
-func (m hmsg) HashCode() uint32            { return m.code }
-func (m hmsg) HashType() selector.HashType { return selector.ConsistentHash }
-func (m hmsg) IsHash() bool                { return true }
+func (m c13Msg) HashCode() uint32            { return m.code }
+func (m c13Msg) HashType() selector.HashType { return selector.ConsistentHash }
+func (m c13Msg) IsHash() bool                { return true }
 
-type sEp struct {
+type c13Ep struct {
 	Host   string `json:"host"`
 	Port   int32  `json:"port"`
 	Weight int32  `json:"w"`
 	WType  int32  `json:"wt"`
 }
 
-func (e sEp) ep() endpoint.Endpoint {
+func (e c13Ep) ep() endpoint.Endpoint {
 	x := endpoint.Endpoint{Host: e.Host, Port: e.Port, Timeout: 3000, Istcp: 1, Weight: e.Weight, WeightType: e.WType, Proto: "tcp"}
 	x.Key = x.String()
 	return x
 }
-func (e sEp) coq() string {
+func (e c13Ep) coq() string {
 	return fmt.Sprintf("(mk %s %s %s %s)", hx([]byte(e.Host)), hx([]byte(e.ep().String())), coqZ(int64(e.Weight)), coqZ(int64(e.WType)))
 }
+func c13Eps(l []c13Ep) []endpoint.Endpoint {
+	out := make([]endpoint.Endpoint, 0, len(l))
+	for _, e := range l {
+		out = append(out, e.ep())
+	}
+	return out
+}
 
-type sOp struct {
+type c13Op struct {
 	Op    string   `json:"op"` // refresh add remove select
-	Eps   []sEp    `json:"eps,omitempty"`
+	Eps   []c13Ep  `json:"eps,omitempty"`
 	Ok    bool     `json:"ok"`
 	Codes []uint32 `json:"codes,omitempty"`
 	Obs   []string `json:"obs,omitempty"` // selected host, "" = error
 }
 
-type sCase struct {
-	Kind     string `json:"kind"` // rr random modhash conhash-ketama conhash-default | bswl
-	Weighted bool   `json:"weighted"`
-	Ops      []sOp  `json:"ops"`
-	Bswl     []sEp  `json:"bswl,omitempty"`
-	BswlObs  []int  `json:"bswl_obs,omitempty"`
-	PanicMsg string `json:"panic,omitempty"`
-	Points   string `json:"-"`
-	Class    string `json:"class"`
+type c13Case struct {
+	Kind     string  `json:"kind"` // rr random modhash conhash-ketama conhash-default | bswl
+	Weighted bool    `json:"weighted"`
+	Ops      []c13Op `json:"ops,omitempty"`
+	Bswl     []c13Ep `json:"bswl,omitempty"`
+	BswlObs  []int   `json:"bswl_obs,omitempty"`
+	PanicMsg string  `json:"panic,omitempty"`
+	Died     string  `json:"died,omitempty"`     // set by the parent when the child died / hung on this case
+	Alloc    uint64  `json:"alloc,omitempty"`    // bytes allocated by BuildStaticWeightList (bswl cases)
+	LimitMB  int     `json:"limit_mb,omitempty"` // run alone in a child with this address-space limit
+	Class    string  `json:"class"`
 }
 
-func newSelector(kind string, weighted bool) selector.Selector {
+func c13NewSelector(kind string, weighted bool) selector.Selector {
 	switch kind {
 	case "rr":
 		return roundrobin.New(weighted)
@@ -73,8 +84,9 @@ func newSelector(kind string, weighted bool) selector.Selector {
 	return consistenthash.New(weighted, consistenthash.DefaultHash)
 }
 
-func chRounds(weighted bool, w int32) int {
-	x := 100
+// number of virtual-node rounds of a consistent-hash member (the model's ch_rounds; key of the points table)
+func c13ChRounds(weighted bool, w int32) int {
+	x := selector.ConHashVirtualNodes
 	if weighted {
 		x = int(w)
 	}
@@ -88,10 +100,25 @@ func chRounds(weighted bool, w int32) int {
 	return 0
 }
 
-// the abstract set the property speaks about: hosts, first occurrence wins
-type absSet struct{ eps []sEp }
+// ring points of one endpoint, read from the implementation itself (ring dump after Refresh([e]))
+var c13PointsCache sync.Map
 
-func (a *absSet) has(h string) bool {
+func c13PointsOf(kind string, weighted bool, e c13Ep) []uint32 {
+	key := fmt.Sprintf("%s|%s|%d", kind, e.Host, c13ChRounds(weighted, e.Weight))
+	if v, ok := c13PointsCache.Load(key); ok {
+		return v.([]uint32)
+	}
+	s := c13NewSelector(kind, weighted).(*consistenthash.ConsistentHash)
+	s.Refresh([]endpoint.Endpoint{e.ep()})
+	keys, _ := s.VerifRing()
+	c13PointsCache.Store(key, keys)
+	return keys
+}
+
+// the abstract set the property speaks about: hosts, first occurrence wins
+type c13AbsSet struct{ eps []c13Ep }
+
+func (a *c13AbsSet) has(h string) bool {
 	for _, e := range a.eps {
 		if e.Host == h {
 			return true
@@ -99,7 +126,7 @@ func (a *absSet) has(h string) bool {
 	}
 	return false
 }
-func (a *absSet) refresh(l []sEp) {
+func (a *c13AbsSet) refresh(l []c13Ep) {
 	a.eps = nil
 	for _, e := range l {
 		if !a.has(e.Host) {
@@ -107,14 +134,14 @@ func (a *absSet) refresh(l []sEp) {
 		}
 	}
 }
-func (a *absSet) add(e sEp) bool {
+func (a *c13AbsSet) add(e c13Ep) bool {
 	if a.has(e.Host) {
 		return false
 	}
 	a.eps = append(a.eps, e)
 	return true
 }
-func (a *absSet) remove(e sEp) bool {
+func (a *c13AbsSet) remove(e c13Ep) bool {
 	for i, x := range a.eps {
 		if x.Host == e.Host {
 			a.eps = append(a.eps[:i:i], a.eps[i+1:]...)
@@ -124,7 +151,8 @@ func (a *absSet) remove(e sEp) bool {
 	return false
 }
 
-func expectedCounts(eps []sEp) (map[string]int, bool) {
+// max(1, floor(W*R/Wmax)) per host, R = min(100, max(10, floor(Wmax/Wmin))); only when all weights are static and > 0
+func c13ExpectedCounts(eps []c13Ep) (map[string]int, bool) {
 	if len(eps) == 0 {
 		return nil, false
 	}
@@ -158,7 +186,51 @@ func expectedCounts(eps []sEp) (map[string]int, bool) {
 	return out, true
 }
 
-func c13Run(c *sCase) (fs []Failure) {
+func c13DistinctHosts(l []c13Ep) bool {
+	seen := map[string]bool{}
+	for _, e := range l {
+		if seen[e.Host] {
+			return false
+		}
+		seen[e.Host] = true
+	}
+	return true
+}
+
+// reference for consistent hashing: owner of the least point >= code among the points of the members
+// (each member's points read from a fresh single-member ring), wrapping; ok=false when a colliding point decides
+func c14RefLookup(kind string, weighted bool, set []c13Ep, code uint32) (string, bool) {
+	bestGE, bestAll := uint64(1<<40), uint64(1<<40)
+	ownGE, ownAll := "", ""
+	dupGE, dupAll := false, false
+	for _, e := range set {
+		for _, k := range c13PointsOf(kind, weighted, e) {
+			kk := uint64(k)
+			if kk == bestAll && ownAll != e.Host {
+				dupAll = true
+			}
+			if kk < bestAll {
+				bestAll, ownAll, dupAll = kk, e.Host, false
+			}
+			if k >= code {
+				if kk == bestGE && ownGE != e.Host {
+					dupGE = true
+				}
+				if kk < bestGE {
+					bestGE, ownGE, dupGE = kk, e.Host, false
+				}
+			}
+		}
+	}
+	if ownGE != "" {
+		return ownGE, !dupGE
+	}
+	return ownAll, !dupAll
+}
+
+// c13Run executes one case on the implementation (in the child process), records the observations in
+// the case and returns the monitor failures.
+func c13Run(c *c13Case) (fs []Failure) {
 	defer func() {
 		if r := recover(); r != nil {
 			c.PanicMsg = fmt.Sprint(r)
@@ -166,43 +238,16 @@ func c13Run(c *sCase) (fs []Failure) {
 		}
 	}()
 	if c.Kind == "bswl" {
-		var l []endpoint.Endpoint
-		for _, e := range c.Bswl {
-			l = append(l, e.ep())
-		}
-		c.BswlObs = selector.BuildStaticWeightList(l)
-		if cnt, ok := expectedCounts(c.Bswl); ok {
-			got := map[string]int{}
-			for _, i := range c.BswlObs {
-				got[c.Bswl[i].Host]++
-			}
-			dup := map[string]bool{}
-			for _, e := range c.Bswl {
-				if dup[e.Host] {
-					return fs // duplicate hosts: counts per host are not defined by the property
-				}
-				dup[e.Host] = true
-			}
-			for h, n := range cnt {
-				if got[h] != n {
-					fs = append(fs, Failure{Sig: "selector/weight-cycle/count-differs", Desc: fmt.Sprintf("static weights %v: endpoint %s occurs %d times in the cycle, max(1, W*R/Wmax) = %d", c.Bswl, h, got[h], n)})
-					break
-				}
-			}
-		}
-		return fs
+		return c13RunBswl(c)
 	}
-	s := newSelector(c.Kind, c.Weighted)
-	abs := &absSet{}
+	s := c13NewSelector(c.Kind, c.Weighted)
+	abs := &c13AbsSet{}
+	isCon := strings.HasPrefix(c.Kind, "conhash")
 	for i := range c.Ops {
 		o := &c.Ops[i]
 		switch o.Op {
 		case "refresh":
-			var l []endpoint.Endpoint
-			for _, e := range o.Eps {
-				l = append(l, e.ep())
-			}
-			s.Refresh(l)
+			s.Refresh(c13Eps(o.Eps))
 			abs.refresh(o.Eps)
 			o.Ok = true
 		case "add":
@@ -218,7 +263,7 @@ func c13Run(c *sCase) (fs []Failure) {
 		case "select":
 			o.Obs = nil
 			eligible := len(abs.eps) > 0
-			if strings.HasPrefix(c.Kind, "conhash") && c.Weighted {
+			if isCon && c.Weighted {
 				eligible = false
 				for _, e := range abs.eps {
 					if e.Weight > 0 {
@@ -226,8 +271,12 @@ func c13Run(c *sCase) (fs []Failure) {
 					}
 				}
 			}
+			var cycle []int // mod-hash: the weighted cycle of the installed list, from the implementation's own builder
+			if c.Kind == "modhash" && c.Weighted {
+				cycle = selector.BuildStaticWeightList(c13Eps(abs.eps))
+			}
 			for _, code := range o.Codes {
-				e, err := s.Select(hmsg{code})
+				e, err := s.Select(c13Msg{code})
 				h := e.Host
 				if err != nil {
 					h = ""
@@ -239,16 +288,35 @@ func c13Run(c *sCase) (fs []Failure) {
 				if (err != nil) == eligible {
 					fs = append(fs, Failure{Sig: "selector/" + c.Kind + "/error-iff-none-eligible", Desc: fmt.Sprintf("Select error=%v with eligible endpoints=%v, set %v (op %d)", err, eligible, abs.eps, i)})
 				}
-				if c.Kind != "rr" && c.Kind != "random" && err == nil { // hash routing is a function of (code, set)
-					e2, _ := s.Select(hmsg{code})
+				if err != nil {
+					continue
+				}
+				if c.Kind != "rr" && c.Kind != "random" { // hash routing is a function of (code, set)
+					e2, _ := s.Select(c13Msg{code})
 					if e2.Host != h {
-						fs = append(fs, Failure{Sig: "selector/" + c.Kind + "/not-deterministic", Desc: fmt.Sprintf("code %d routed to %s then %s with the set unchanged", code, h, e2.Host)})
+						fs = append(fs, Failure{Sig: "hash-routing/" + c.Kind + "/not-deterministic", Desc: fmt.Sprintf("code %d routed to %s then %s with the set unchanged", code, h, e2.Host)})
+					}
+				}
+				if c.Kind == "modhash" && len(abs.eps) > 0 {
+					want := abs.eps[int(code%uint32(len(abs.eps)))].Host
+					slot := fmt.Sprintf("slot %d of %d endpoints", code%uint32(len(abs.eps)), len(abs.eps))
+					if len(cycle) > 0 {
+						want = abs.eps[cycle[int(code%uint32(len(cycle)))]].Host
+						slot = fmt.Sprintf("slot %d of the weighted cycle of length %d", code%uint32(len(cycle)), len(cycle))
+					}
+					if h != want {
+						fs = append(fs, Failure{Sig: "hash-routing/modhash/slot", Desc: fmt.Sprintf("code %d routed to %s; %s is %s (set %v)", code, h, slot, want, abs.eps)})
+					}
+				}
+				if isCon {
+					if want, ok := c14RefLookup(c.Kind, c.Weighted, abs.eps, code); ok && want != h {
+						fs = append(fs, Failure{Sig: "hash-routing/" + c.Kind + "/not-a-function-of-the-set", Desc: fmt.Sprintf("code %d routed to %s; the ring of the current set %v sends it to %s (op %d)", code, h, abs.eps, want, i)})
 					}
 				}
 			}
 			n := len(abs.eps)
 			if c.Kind == "rr" && n > 0 {
-				if cnt, ok := expectedCounts(abs.eps); ok && c.Weighted {
+				if cnt, ok := c13ExpectedCounts(abs.eps); ok && c.Weighted {
 					total := 0
 					for _, v := range cnt {
 						total += v
@@ -266,7 +334,7 @@ func c13Run(c *sCase) (fs []Failure) {
 							}
 						}
 					}
-				} else if !c.Weighted || !allStatic(abs.eps) {
+				} else if !c.Weighted || !c13AllStatic(abs.eps) {
 					for st := 0; st+n <= len(o.Obs); st++ { // any n consecutive selections hit each endpoint exactly once
 						seen := map[string]bool{}
 						for _, h := range o.Obs[st : st+n] {
@@ -284,7 +352,38 @@ func c13Run(c *sCase) (fs []Failure) {
 	return fs
 }
 
-func allStatic(l []sEp) bool {
+func c13RunBswl(c *c13Case) (fs []Failure) {
+	l := c13Eps(c.Bswl)
+	c.Alloc = c13Allocated(func() { c.BswlObs = selector.BuildStaticWeightList(l) })
+	n := len(c.Bswl)
+	for _, i := range c.BswlObs {
+		if i < 0 || i >= n {
+			fs = append(fs, Failure{Sig: "selector/weight-cycle/index-out-of-range", Desc: fmt.Sprintf("static weights %v: the cycle contains index %d, there are %d endpoints", c.Bswl, i, n)})
+			return fs
+		}
+	}
+	if len(c.BswlObs) > 101*n+100 {
+		fs = append(fs, Failure{Sig: "selector/weight-cycle/too-long", Desc: fmt.Sprintf("static weights %v: cycle of %d slots for %d endpoints (at most 100 per endpoint are ever needed)", c.Bswl, len(c.BswlObs), n)})
+	}
+	if lim := uint64(1<<20 + 4096*n*n); c.Alloc > lim {
+		fs = append(fs, Failure{Sig: "selector/weight-cycle/over-allocation", Desc: fmt.Sprintf("static weights %v: BuildStaticWeightList allocated %d bytes for %d endpoints (bound %d: the cycle has at most 101n+100 slots)", c.Bswl, c.Alloc, n, lim)})
+	}
+	if cnt, ok := c13ExpectedCounts(c.Bswl); ok && c13DistinctHosts(c.Bswl) {
+		got := map[string]int{}
+		for _, i := range c.BswlObs {
+			got[c.Bswl[i].Host]++
+		}
+		for _, e := range c.Bswl {
+			if got[e.Host] != cnt[e.Host] {
+				fs = append(fs, Failure{Sig: "selector/weight-cycle/count-differs", Desc: fmt.Sprintf("static weights %v: endpoint %s occurs %d times in the cycle, max(1, W*R/Wmax) = %d", c.Bswl, e.Host, got[e.Host], cnt[e.Host])})
+				break
+			}
+		}
+	}
+	return fs
+}
+
+func c13AllStatic(l []c13Ep) bool {
 	for _, e := range l {
 		if e.WType != 1 {
 			return false
@@ -294,43 +393,38 @@ func allStatic(l []sEp) bool {
 }
 
 // virtual-node table for the model: read from the implementation's ring after Refresh([e])
-func pointsTable(c *sCase) string {
+func c13PointsTable(c *c13Case) string {
 	if !strings.HasPrefix(c.Kind, "conhash") {
 		return "[]"
 	}
-	type hk struct {
-		h string
-		k int
-	}
-	seen := map[hk]bool{}
+	seen := map[string]bool{}
 	var parts []string
 	for _, o := range c.Ops {
 		for _, e := range o.Eps {
-			k := hk{e.Host, chRounds(c.Weighted, e.Weight)}
-			if seen[k] {
+			k := c13ChRounds(c.Weighted, e.Weight)
+			key := fmt.Sprintf("%s|%d", e.Host, k)
+			if seen[key] {
 				continue
 			}
-			seen[k] = true
-			s := newSelector(c.Kind, c.Weighted).(*consistenthash.ConsistentHash)
-			s.Refresh([]endpoint.Endpoint{e.ep()})
-			keys, _ := s.VerifRing()
+			seen[key] = true
+			keys := c13PointsOf(c.Kind, c.Weighted, e)
 			ks := make([]string, len(keys))
 			for i, x := range keys {
 				ks[i] = fmt.Sprint(x)
 			}
-			parts = append(parts, fmt.Sprintf("(%s, %d%%nat, [%s])", hx([]byte(e.Host)), k.k, strings.Join(ks, "; ")))
+			parts = append(parts, fmt.Sprintf("(%s, %d%%nat, [%s])", hx([]byte(e.Host)), k, strings.Join(ks, "; ")))
 		}
 	}
 	return "[" + strings.Join(parts, "; ") + "]"
 }
 
-var kindCoq = map[string]string{"rr": "RoundRobin", "random": "Random", "modhash": "ModHash", "conhash-ketama": "ConHash", "conhash-default": "ConHash"}
+var c13KindCoq = map[string]string{"rr": "RoundRobin", "random": "Random", "modhash": "ModHash", "conhash-ketama": "ConHash", "conhash-default": "ConHash"}
 
-func c13Coq(c *sCase) string {
-	if c.PanicMsg != "" {
+func c13Coq(c *c13Case) string {
+	if c.PanicMsg != "" || c.Died != "" {
 		return ""
 	}
-	coqEps := func(l []sEp) string {
+	coqEps := func(l []c13Ep) string {
 		p := make([]string, len(l))
 		for i, e := range l {
 			p[i] = e.coq()
@@ -369,34 +463,63 @@ func c13Coq(c *sCase) string {
 			ops = append(ops, fmt.Sprintf("OSelRun [%s] [%s]", strings.Join(cs, "; "), strings.Join(os, "; ")))
 		}
 	}
-	return fmt.Sprintf("inl (%s, %s, %s, [%s])", kindCoq[c.Kind], coqBool(c.Weighted), pointsTable(c), strings.Join(ops, ";\n   "))
+	return fmt.Sprintf("inl (%s, %s, %s, [%s])", c13KindCoq[c.Kind], coqBool(c.Weighted), c13PointsTable(c), strings.Join(ops, ";\n   "))
 }
 
-var hostPool = []string{"10.0.0.1", "10.0.0.2", "10.0.0.3", "10.0.0.4", "10.0.0.5", "10.0.0.6", "10.0.0.7", "10.0.0.8", "a", "ab", "b", "host-9", "host-10", "z.example"}
-var weightPool = []int32{1, 1, 2, 3, 5, 10, 11, 50, 99, 100, 101, 200, 1000, 1001, 7, 7, 100, 100}
-var hostileWeights = []int32{0, 0, -1, -200, -2147483648, 2147483647, 2147483646, 65536, 1 << 30}
+// ---------- generators ----------
+var c13HostPool = []string{"10.0.0.1", "10.0.0.2", "10.0.0.3", "10.0.0.4", "10.0.0.5", "10.0.0.6", "10.0.0.7", "10.0.0.8", "a", "ab", "b", "host-9", "host-10", "z.example"}
+var c13WeightPool = []int32{1, 1, 2, 3, 5, 9, 10, 11, 50, 99, 100, 101, 200, 999, 1000, 1001, 7, 7, 100, 100}
+var c13HostileWeights = []int32{0, 0, -1, -200, -2147483648, 2147483647, 2147483646, 65536, 1 << 30}
+var c13ConWeights = []int32{0, -5, 1, 3, 4, 5, 7, 8, 40, 100, 101, 400}
 
-func randEp(rng *rand.Rand, hosts int, mode string) sEp {
-	e := sEp{Host: hostPool[rng.Intn(hosts)], Port: int32(10000 + rng.Intn(3)), WType: 1, Weight: weightPool[rng.Intn(len(weightPool))]}
+func c13RandEp(rng *rand.Rand, hosts int, mode string) c13Ep {
+	h := rng.Intn(hosts)
+	// the port is a function of the host: Endpoint.String() (the tie-break of the weight cycle) is then distinct for distinct hosts
+	e := c13Ep{Host: c13HostPool[h], Port: int32(10000 + h%3), WType: 1, Weight: c13WeightPool[rng.Intn(len(c13WeightPool))]}
 	switch mode {
 	case "hostile":
 		if rng.Intn(2) == 0 {
-			e.Weight = hostileWeights[rng.Intn(len(hostileWeights))]
+			e.Weight = c13HostileWeights[rng.Intn(len(c13HostileWeights))]
 		}
 	case "mixed":
 		e.WType = int32(rng.Intn(2))
 		if rng.Intn(4) == 0 {
-			e.Weight = hostileWeights[rng.Intn(len(hostileWeights))]
+			e.Weight = c13HostileWeights[rng.Intn(len(c13HostileWeights))]
 		}
 	case "conhash":
-		e.Weight = []int32{0, -5, 1, 3, 4, 5, 8, 40, 100, 101, 400}[rng.Intn(11)]
+		e.Weight = c13ConWeights[rng.Intn(len(c13ConWeights))]
+	case "ratio": // weight ratios around the clamp limits 10 and 100
+		e.Weight = []int32{1, 9, 10, 11, 99, 100, 101, 990, 1000, 1010, 3, 30, 31, 299, 300, 301}[rng.Intn(16)]
 	}
 	return e
 }
 
-func genHistory(rng *rand.Rand, kind string, weighted bool, mode string, hashOnly bool) sCase {
-	c := sCase{Kind: kind, Weighted: weighted, Class: fmt.Sprintf("%s/w=%v/%s", kind, weighted, mode)}
-	hosts := 2 + rng.Intn(len(hostPool)-2)
+func c13Codes(rng *rand.Rand, m int) []uint32 {
+	codes := make([]uint32, m)
+	for j := range codes {
+		switch rng.Intn(5) {
+		case 0:
+			codes[j] = []uint32{0, 1, 0xffffffff, 0x80000000, 0x7fffffff, 0xfffffffe, 0x80000001}[rng.Intn(7)]
+		case 1:
+			codes[j] = 0x80000000 | rng.Uint32()
+		default:
+			codes[j] = rng.Uint32()
+		}
+	}
+	return codes
+}
+
+func c13SelOp(rng *rand.Rand, kind string, weighted bool, size int) c13Op {
+	m := 1 + rng.Intn(2*size+4)
+	if kind == "rr" && weighted && rng.Intn(2) == 0 {
+		m = 120 + rng.Intn(200) // long enough to contain full weighted cycles
+	}
+	return c13Op{Op: "select", Codes: c13Codes(rng, m)}
+}
+
+func c13GenHistory(rng *rand.Rand, kind string, weighted bool, mode string) c13Case {
+	c := c13Case{Kind: kind, Weighted: weighted, Class: fmt.Sprintf("%s/w=%v/%s/random", kind, weighted, mode)}
+	hosts := 2 + rng.Intn(len(c13HostPool)-2)
 	if rng.Intn(4) == 0 {
 		hosts = 1 + rng.Intn(3)
 	}
@@ -406,234 +529,200 @@ func genHistory(rng *rand.Rand, kind string, weighted bool, mode string, hashOnl
 		switch r := rng.Intn(10); {
 		case i == 0 && rng.Intn(4) != 0 || r == 0:
 			n := rng.Intn(hosts + 2)
-			var l []sEp
+			var l []c13Ep
 			for j := 0; j < n; j++ {
-				l = append(l, randEp(rng, hosts, mode))
+				l = append(l, c13RandEp(rng, hosts, mode))
 			}
-			c.Ops = append(c.Ops, sOp{Op: "refresh", Eps: l})
+			c.Ops = append(c.Ops, c13Op{Op: "refresh", Eps: l})
 			size = n
 		case r <= 2:
-			c.Ops = append(c.Ops, sOp{Op: "add", Eps: []sEp{randEp(rng, hosts, mode)}})
+			c.Ops = append(c.Ops, c13Op{Op: "add", Eps: []c13Ep{c13RandEp(rng, hosts, mode)}})
 			size++
 		case r <= 4:
-			c.Ops = append(c.Ops, sOp{Op: "remove", Eps: []sEp{randEp(rng, hosts, mode)}})
+			c.Ops = append(c.Ops, c13Op{Op: "remove", Eps: []c13Ep{c13RandEp(rng, hosts, mode)}})
 		default:
-			m := 1 + rng.Intn(2*size+4)
-			if kind == "rr" && weighted && rng.Intn(2) == 0 {
-				m = 120 + rng.Intn(200) // long enough to contain full weighted cycles
-			}
-			codes := make([]uint32, m)
-			for j := range codes {
-				switch rng.Intn(5) {
-				case 0:
-					codes[j] = []uint32{0, 1, 0xffffffff, 0x80000000, 0x7fffffff, 0xfffffffe}[rng.Intn(6)]
-				default:
-					codes[j] = rng.Uint32()
-				}
-			}
-			c.Ops = append(c.Ops, sOp{Op: "select", Codes: codes})
+			c.Ops = append(c.Ops, c13SelOp(rng, kind, weighted, size))
 		}
 	}
-	// always end with a selection run
-	codes := make([]uint32, 3+rng.Intn(6))
-	for j := range codes {
-		codes[j] = rng.Uint32()
+	c.Ops = append(c.Ops, c13Op{Op: "select", Codes: c13Codes(rng, 3+rng.Intn(6))}) // always end with a selection run
+	return c
+}
+
+// scripted histories: the update patterns a manager produces (and the ones it does not), each followed by a selection run
+func c13GenScenario(rng *rand.Rand, kind string, weighted bool, mode string, which int) c13Case {
+	names := []string{"shrinking-refresh-then-remove", "add-all-remove-some-readd", "remove-with-other-weight", "refresh-with-duplicates", "drain-to-empty"}
+	which %= len(names)
+	c := c13Case{Kind: kind, Weighted: weighted, Class: fmt.Sprintf("%s/w=%v/%s/%s", kind, weighted, mode, names[which])}
+	k := 2 + rng.Intn(7)
+	perm := rng.Perm(len(c13HostPool))
+	var u []c13Ep
+	for _, p := range perm[:k] {
+		e := c13RandEp(rng, len(c13HostPool), mode)
+		e.Host, e.Port = c13HostPool[p], int32(10000+p%3)
+		u = append(u, e)
 	}
-	c.Ops = append(c.Ops, sOp{Op: "select", Codes: codes})
+	sel := func() { c.Ops = append(c.Ops, c13SelOp(rng, kind, weighted, k)) }
+	other := func(e c13Ep) c13Ep { // same host, another weight
+		x := c13RandEp(rng, len(c13HostPool), mode)
+		x.Host, x.Port = e.Host, e.Port
+		return x
+	}
+	switch which {
+	case 0:
+		c.Ops = append(c.Ops, c13Op{Op: "refresh", Eps: u})
+		sel()
+		cut := 1 + rng.Intn(k-1)
+		c.Ops = append(c.Ops, c13Op{Op: "refresh", Eps: append([]c13Ep(nil), u[:cut]...)})
+		sel()
+		c.Ops = append(c.Ops, c13Op{Op: "remove", Eps: []c13Ep{u[rng.Intn(cut)]}})
+		sel()
+		c.Ops = append(c.Ops, c13Op{Op: "add", Eps: []c13Ep{u[cut+rng.Intn(k-cut)]}})
+		sel()
+	case 1:
+		for _, e := range u {
+			c.Ops = append(c.Ops, c13Op{Op: "add", Eps: []c13Ep{e}})
+		}
+		sel()
+		for _, p := range rng.Perm(k)[:1+rng.Intn(k)] {
+			c.Ops = append(c.Ops, c13Op{Op: "remove", Eps: []c13Ep{u[p]}})
+			if rng.Intn(2) == 0 {
+				sel()
+			}
+		}
+		sel()
+		for _, p := range rng.Perm(k)[:1+rng.Intn(k)] {
+			c.Ops = append(c.Ops, c13Op{Op: "add", Eps: []c13Ep{other(u[p])}})
+		}
+		sel()
+	case 2:
+		c.Ops = append(c.Ops, c13Op{Op: "refresh", Eps: u})
+		for _, p := range rng.Perm(k)[:1+rng.Intn(k)] {
+			c.Ops = append(c.Ops, c13Op{Op: "remove", Eps: []c13Ep{other(u[p])}})
+			sel()
+		}
+	case 3:
+		l := append([]c13Ep(nil), u...)
+		for i := 0; i < 1+rng.Intn(4); i++ {
+			l = append(l, other(u[rng.Intn(k)]))
+		}
+		rng.Shuffle(len(l), func(i, j int) { l[i], l[j] = l[j], l[i] })
+		c.Ops = append(c.Ops, c13Op{Op: "refresh", Eps: l})
+		sel()
+		c.Ops = append(c.Ops, c13Op{Op: "add", Eps: []c13Ep{other(u[rng.Intn(k)])}})
+		sel()
+	case 4:
+		c.Ops = append(c.Ops, c13Op{Op: "refresh", Eps: u})
+		for _, p := range rng.Perm(k) {
+			c.Ops = append(c.Ops, c13Op{Op: "remove", Eps: []c13Ep{u[p]}})
+		}
+		sel()
+		c.Ops = append(c.Ops, c13Op{Op: "remove", Eps: []c13Ep{u[0]}})
+		c.Ops = append(c.Ops, c13Op{Op: "add", Eps: []c13Ep{u[rng.Intn(k)]}})
+		sel()
+		c.Ops = append(c.Ops, c13Op{Op: "refresh", Eps: nil})
+		sel()
+	}
 	return c
 }
 
 // for consistent hashing add the ring points, their predecessors and successors to the probed codes
-func addRingCodes(c *sCase) {
-	s := newSelector(c.Kind, c.Weighted)
-	abs := &absSet{}
+func c13AddRingCodes(c *c13Case) {
+	if !strings.HasPrefix(c.Kind, "conhash") {
+		return
+	}
+	abs := &c13AbsSet{}
 	for i := range c.Ops {
 		o := &c.Ops[i]
 		switch o.Op {
 		case "refresh":
-			var l []endpoint.Endpoint
-			for _, e := range o.Eps {
-				l = append(l, e.ep())
-			}
-			s.Refresh(l)
 			abs.refresh(o.Eps)
 		case "add":
-			s.Add(o.Eps[0].ep())
+			abs.add(o.Eps[0])
 		case "remove":
-			s.Remove(o.Eps[0].ep())
+			abs.remove(o.Eps[0])
 		case "select":
-			if ch, ok := s.(*consistenthash.ConsistentHash); ok {
-				keys, _ := ch.VerifRing()
-				for k := 0; k < len(keys) && k < 400; k += 1 + len(keys)/12 {
-					o.Codes = append(o.Codes, keys[k], keys[k]-1, keys[k]+1)
-				}
-				if len(keys) > 0 {
-					o.Codes = append(o.Codes, keys[0], keys[0]-1, keys[len(keys)-1], keys[len(keys)-1]+1)
-				}
+			var keys []uint32
+			for _, e := range abs.eps {
+				keys = append(keys, c13PointsOf(c.Kind, c.Weighted, e)...)
+			}
+			sort.Slice(keys, func(a, b int) bool { return keys[a] < keys[b] })
+			for k := 0; k < len(keys) && k < 400; k += 1 + len(keys)/12 {
+				o.Codes = append(o.Codes, keys[k], keys[k]-1, keys[k]+1)
+			}
+			if len(keys) > 0 {
+				o.Codes = append(o.Codes, keys[0], keys[0]-1, keys[len(keys)-1], keys[len(keys)-1]+1, 0, 0xffffffff)
 			}
 		}
 	}
 }
 
-func c13Gen(tier string, rng *rand.Rand) []sCase {
-	n := 14
+func c13Gen(tier string, rng *rand.Rand) []c13Case {
+	n := 12
 	if tier == "thorough" {
 		n = 250
 	}
-	var cs []sCase
+	var cs []c13Case
 	for i := 0; i < n; i++ {
 		for _, k := range []string{"rr", "random", "modhash"} {
 			for _, w := range []bool{false, true} {
-				mode := []string{"plain", "hostile", "mixed"}[i%3]
-				cs = append(cs, genHistory(rng, k, w, mode, false))
+				mode := []string{"plain", "hostile", "mixed", "ratio"}[i%4]
+				cs = append(cs, c13GenHistory(rng, k, w, mode))
+				cs = append(cs, c13GenScenario(rng, k, w, mode, i))
 			}
 		}
 		for _, k := range []string{"conhash-ketama", "conhash-default"} {
 			for _, w := range []bool{false, true} {
-				c := genHistory(rng, k, w, "conhash", false)
-				addRingCodes(&c)
+				c := c13GenHistory(rng, k, w, "conhash")
+				c13AddRingCodes(&c)
+				cs = append(cs, c)
+				c = c13GenScenario(rng, k, w, "conhash", i)
+				c13AddRingCodes(&c)
 				cs = append(cs, c)
 			}
 		}
 	}
-	// BuildStaticWeightList directly
-	for i := 0; i < 6*n; i++ {
+	// BuildStaticWeightList directly (distinct hosts: Endpoint.String() is the tie-break, the prescribed counts are per endpoint)
+	for i := 0; i < 8*n; i++ {
 		m := rng.Intn(9)
-		var l []sEp
-		mode := []string{"plain", "plain", "hostile", "mixed"}[i%4]
-		for j := 0; j < m; j++ {
-			e := randEp(rng, len(hostPool), mode)
-			if i%2 == 0 { // distinct hosts: the prescribed counts are per endpoint
-				e.Host = hostPool[j]
-			}
+		if i%16 == 0 {
+			m = 9 + rng.Intn(4)
+		}
+		var l []c13Ep
+		mode := []string{"plain", "ratio", "hostile", "mixed"}[i%4]
+		for j, p := range rng.Perm(len(c13HostPool))[:m] {
+			e := c13RandEp(rng, len(c13HostPool), mode)
+			e.Host, e.Port = c13HostPool[p], int32(10000+j)
 			l = append(l, e)
 		}
-		cs = append(cs, sCase{Kind: "bswl", Bswl: l, Class: fmt.Sprintf("bswl/%s/n%d", mode, m)})
+		cs = append(cs, c13Case{Kind: "bswl", Bswl: l, Class: fmt.Sprintf("bswl/%s/n%d", mode, m)})
 	}
-	fixed := [][]sEp{{{"a", 1, 0, 1}, {"b", 1, 0, 1}}, {{"a", 1, -200, 1}}, {{"a", 1, 2147483647, 1}, {"b", 1, 2147483647, 1}, {"c", 1, 2147483647, 1}, {"d", 1, 2147483647, 1}, {"e", 1, 2147483647, 1}, {"f", 1, 2147483647, 1}, {"g", 1, 2147483647, 1}, {"h", 1, 2147483647, 1}},
-		{{"a", 1, 1, 1}, {"b", 1, 1000, 1}}, {{"a", 1, 5, 1}, {"b", 1, 5, 1}, {"ab", 1, 5, 1}}, {{"a", 1, -1, 1}, {"b", 1, 3, 1}}, {}}
+	big := int32(2147483647)
+	fixed := [][]c13Ep{{{"a", 1, 0, 1}, {"b", 1, 0, 1}}, {{"a", 1, -200, 1}}, {{"a", 1, big, 1}, {"b", 1, big, 1}, {"c", 1, big, 1}, {"d", 1, big, 1}, {"e", 1, big, 1}, {"f", 1, big, 1}, {"g", 1, big, 1}, {"h", 1, big, 1}},
+		{{"a", 1, 1, 1}, {"b", 1, 1000, 1}}, {{"a", 1, 5, 1}, {"b", 1, 5, 1}, {"ab", 1, 5, 1}}, {{"a", 1, -1, 1}, {"b", 1, 3, 1}}, {}, {{"a", 1, 0, 1}, {"b", 1, 7, 1}, {"c", 1, 7, 1}},
+		{{"a", 1, 1, 1}, {"b", 1, big, 1}}, {{"a", 1, -2147483648, 1}, {"b", 1, big, 1}}, {{"a", 1, 10, 1}, {"b", 1, 100, 1}, {"c", 1, 99, 1}, {"d", 1, 101, 1}}}
 	for _, l := range fixed {
-		cs = append(cs, sCase{Kind: "bswl", Bswl: l, Class: "bswl/fixed"})
-	}
-	return cs
-}
-
-// ---------- C14 specific monitors (implementation side): history independence, minimal disruption ----------
-func c14Extra(tier string, rng *rand.Rand, res *Result) {
-	n := 40
-	if tier == "thorough" {
-		n = 600
-	}
-	count := 0
-	for it := 0; it < n; it++ {
-		kind := []string{"conhash-ketama", "conhash-default"}[it%2]
-		weighted := it%4 >= 2
-		k := 2 + rng.Intn(9)
-		perm := rng.Perm(len(hostPool))[:k]
-		var set []sEp
-		for _, p := range perm {
-			w := int32(100)
-			if weighted {
-				w = []int32{4, 8, 40, 100, 400}[rng.Intn(5)]
-			}
-			set = append(set, sEp{Host: hostPool[p], Port: 1, Weight: w, WType: 1})
-		}
-		// history A: refresh with the set; history B: adds in another order, with detours (add + remove of others, refresh of a subset first)
-		a := newSelector(kind, weighted)
-		var l []endpoint.Endpoint
-		for _, e := range set {
-			l = append(l, e.ep())
-		}
-		a.Refresh(l)
-		b := newSelector(kind, weighted)
-		if rng.Intn(2) == 0 {
-			b.Refresh(l[:len(l)/2])
-		}
-		for _, p := range rng.Perm(len(set)) {
-			if rng.Intn(3) == 0 {
-				other := sEp{Host: "detour-" + fmt.Sprint(rng.Intn(3)), Port: 1, Weight: set[p].Weight, WType: 1}
-				b.Add(other.ep())
-				b.Add(set[p].ep())
-				b.Remove(other.ep())
-			} else {
-				b.Add(set[p].ep())
-			}
-		}
-		// remove one / add one
-		victim := set[rng.Intn(len(set))]
-		ar := newSelector(kind, weighted)
-		ar.Refresh(l)
-		ar.Remove(victim.ep())
-		newcomer := sEp{Host: "newcomer", Port: 1, Weight: victim.Weight, WType: 1}
-		aa := newSelector(kind, weighted)
-		aa.Refresh(l)
-		aa.Add(newcomer.ep())
-		keys, _ := a.(*consistenthash.ConsistentHash).VerifRing()
-		codes := []uint32{0, 0xffffffff}
-		for i := 0; i < len(keys); i += 1 + len(keys)/60 {
-			codes = append(codes, keys[i], keys[i]-1, keys[i]+1)
-		}
-		for i := 0; i < 300; i++ {
-			codes = append(codes, rng.Uint32())
-		}
-		for _, code := range codes {
-			count++
-			ea, _ := a.Select(hmsg{code})
-			eb, _ := b.Select(hmsg{code})
-			if ea.Host != eb.Host {
-				res.Failures = append(res.Failures, Failure{Sig: "hash-routing/" + kind + "/history-dependent", Desc: fmt.Sprintf("two selectors holding the same set %v route code %d to %s and %s", set, code, ea.Host, eb.Host), Replay: map[string]interface{}{"set": set, "code": code}})
-				break
-			}
-			er, _ := ar.Select(hmsg{code})
-			if er.Host != ea.Host && ea.Host != victim.Host {
-				res.Failures = append(res.Failures, Failure{Sig: "hash-routing/" + kind + "/remove-not-minimal", Desc: fmt.Sprintf("removing %s re-routed code %d from %s to %s", victim.Host, code, ea.Host, er.Host), Replay: map[string]interface{}{"set": set, "code": code, "removed": victim}})
-				break
-			}
-			en, _ := aa.Select(hmsg{code})
-			if en.Host != ea.Host && en.Host != newcomer.Host {
-				res.Failures = append(res.Failures, Failure{Sig: "hash-routing/" + kind + "/add-not-minimal", Desc: fmt.Sprintf("adding %s moved code %d from %s to %s", newcomer.Host, code, ea.Host, en.Host), Replay: map[string]interface{}{"set": set, "code": code}})
-				break
-			}
-		}
-	}
-	res.Evaluations += count
-	res.Stats["history_independence_and_disruption_probes"] = count
-}
-
-func c14Gen(tier string, rng *rand.Rand) []sCase {
-	n := 20
-	if tier == "thorough" {
-		n = 300
-	}
-	var cs []sCase
-	for i := 0; i < n; i++ {
-		for _, k := range []string{"conhash-ketama", "conhash-default", "modhash"} {
-			for _, w := range []bool{false, true} {
-				mode := "conhash"
-				if k == "modhash" {
-					mode = []string{"plain", "mixed"}[i%2]
-				}
-				c := genHistory(rng, k, w, mode, true)
-				addRingCodes(&c)
-				cs = append(cs, c)
-			}
-		}
+		cs = append(cs, c13Case{Kind: "bswl", Bswl: l, Class: "bswl/fixed"})
 	}
 	return cs
 }
 
 func init() {
-	mk := func(id, rule string, gen func(string, *rand.Rand) []sCase, extra func(string, *rand.Rand, *Result)) {
+	constGens = append(constGens, func() {
+		lo, hi := selector.VerifStaticWeightLimits()
+		fmt.Printf("Definition c_minStaticWeightLimit := %d.\n", lo)
+		fmt.Printf("Definition c_maxStaticWeightLimit := %d.\n", hi)
+		fmt.Printf("Definition c_ConHashVirtualNodes := %d.\n", selector.ConHashVirtualNodes)
+	})
+	mk := func(id, rule string, gen func(string, *rand.Rand) []c13Case, extra func(string, *rand.Rand, *Result)) {
 		props[id] = func(a Args) {
-			runProp(Prop[sCase]{
+			runProp(Prop[c13Case]{
 				ID: id, Require: "From TarsV Require Import Base.Hex Select.Selectors Select.Hist.", CaseType: "sel_case",
-				Mismatch: "failing_from sel_check", Corr: "Hist.sel_check (model selectors replayed over the observed history: results of Add/Remove, every selection; BuildStaticWeightList index list)",
-				Rule: rule, Shard: 40, Workers: 8, Gen: gen, Run: c13Run, Coq: c13Coq,
-				Class: func(c *sCase) string { return c.Class }, Extra: extra,
+				Mismatch: "failing_from sel_check", Corr: "Hist.sel_check (the model's step replayed over the observed history: results of Add/Remove, every selection, unobservable draws existentially quantified; BuildStaticWeightList index list)",
+				Rule: rule, Shard: 40, Gen: gen, RunAll: c13RunAll, Coq: c13Coq,
+				Class: func(c *c13Case) string { return c.Class }, Extra: extra,
 			}, a)
 		}
 	}
-	mk("C13", "random histories of Refresh/Add/Remove/Select-runs (3-12 ops) over 1-14 hosts incl. duplicate hosts and prefix-related names, for round-robin / random / mod-hash (weighted and not) and consistent hash (Ketama/default, weighted and not); weights plain, hostile (0, negative, int32 min/max, 2^30) and mixed weight types; BuildStaticWeightList on random and fixed weight vectors (all-zero, negative, 8 x 2^31-1, 1 vs 1000, ties); class = (selector, weighted, weight mode)", c13Gen, nil)
-	mk("C14", "random histories for consistent hash (Ketama/default x weighted or not) and mod-hash with probes at ring points, their predecessors and successors, 0, 2^32-1 and random codes; plus implementation-side pairs of different histories reaching the same set, and before/after pairs for remove and add; class = (selector, weighted, weight mode)", c14Gen, c14Extra)
-	_ = sort.Strings
+	mk("C13", "random and scripted histories of Refresh/Add/Remove/Select-runs over 1-14 hosts incl. duplicate hosts, prefix-related names and removal through an endpoint value with another weight, for round-robin / random / mod-hash (weighted and not) and consistent hash (Ketama/default, weighted and not); weights plain, around the clamp ratios 10 and 100, hostile (0, negative, int32 min/max, 2^30) and mixed weight types; BuildStaticWeightList on random and fixed weight vectors (all-zero, negative, 8 x 2^31-1, 1 vs 1000, ties); plus a 16-goroutine select/update stress per selector under the race detector; class = (selector, weighted, weight mode, history shape)", c13Gen, c13Extra)
+	mk("C14", "random and scripted histories for consistent hash (Ketama/default x weighted or not) and mod-hash (weighted cycle or not) with probes at ring points, their predecessors and successors, 0, 2^31-1, 2^31, 2^32-1 and random codes (half of them with the top bit set); plus implementation-side pairs of different histories reaching the same set, before/after pairs for remove and add, and a search for a real virtual-node collision; class = (selector, weighted, weight mode, history shape)", c14Gen, c14Extra)
 }
